@@ -48,21 +48,24 @@ impl PatternNode {
   }
 
   pub fn fixed_string(&self) -> Cow<str> {
+    self.longest_token(false)
+  }
+
+  fn longest_token(&self, named_only: bool) -> Cow<str> {
     match &self {
+      PatternNode::Terminal { is_named, .. } if named_only && !is_named => Cow::Borrowed(""),
       PatternNode::Terminal { text, .. } => Cow::Borrowed(text),
       PatternNode::MetaVar { .. } => Cow::Borrowed(""),
-      PatternNode::Internal { children, .. } => {
-        children
-          .iter()
-          .map(|n| n.fixed_string())
-          .fold(Cow::Borrowed(""), |longest, curr| {
-            if longest.len() >= curr.len() {
-              longest
-            } else {
-              curr
-            }
-          })
-      }
+      PatternNode::Internal { children, .. } => children
+        .iter()
+        .map(|n| n.longest_token(named_only))
+        .fold(Cow::Borrowed(""), |longest, curr| {
+          if longest.len() >= curr.len() {
+            longest
+          } else {
+            curr
+          }
+        }),
     }
   }
 }
@@ -158,6 +161,13 @@ impl<L: Language> Pattern<L> {
 
   pub fn fixed_string(&self) -> Cow<str> {
     self.node.fixed_string()
+  }
+
+  /// The longest text among the named tokens of the pattern.
+  /// Unnamed tokens are matched by kind only, so their spelling in the pattern
+  /// need not occur in the matched code, e.g. case-insensitive keywords.
+  pub fn fixed_named_string(&self) -> Cow<str> {
+    self.node.longest_token(true)
   }
 
   /// Get all defined variables in the pattern.
